@@ -1,4 +1,5 @@
 import Witverif.Proofs.Ident
+import Witverif.Proofs.ByteLit
 import Witverif.Props.C27
 /-!
 # C09 — generated Rust builds and componentizes as exactly the requested world (identifier hygiene part)
@@ -228,6 +229,47 @@ theorem package_module_escaped :
     let p : Pkg := ⟨"a".toList, "box".toList, none⟩
     (rustModulePath [p] p "i".toList)[1]? = some "box_".toList := by decide
 
+/-! ## "Exactly that world": the component-type metadata survives its trip through Rust source text
+
+`emit_custom_section` writes the encoded world (the bytes wit-component later reads back from the
+custom section) as a byte-string literal, escaped by a `match byte` table and wrapped with `\`-newline
+continuations.  The table and the wrap width are extracted from the source on every run
+(`Generated/RustSection.lean`); the lexer is the spec (`ByteLitSpec.decode`). -/
+
+open Witverif.Text.ByteLit Witverif.Text.ByteLitSpec in
+/-- decidable fact about the extracted table: every arm writes what the Rust lexer reads back as that
+byte, and no byte written verbatim is whitespace, `\` or `"` (re-decided whenever the source changes) -/
+theorem section_table_ok : tableOk Witverif.Generated.RustSection.arms = true := by decide +kernel
+
+open Witverif.Text.ByteLit Witverif.Text.ByteLitSpec in
+/-- **Round trip, any wrapping**: for every byte list and every choice of where continuations are
+placed, the Rust lexer reads the emitted literal body back as exactly those bytes. -/
+theorem custom_section_roundtrip_any_wrapping (ws : List Bool) (bs : List Nat)
+    (hl : ws.length = bs.length) (hb : ∀ b ∈ bs, b < 256) (rest : List Char) :
+    decode false (emitW Witverif.Generated.RustSection.arms ws bs ++ '"' :: rest) = some (bs, rest) :=
+  decode_emitW _ section_table_ok ws bs hl hb false rest
+
+open Witverif.Text.ByteLit Witverif.Text.ByteLitSpec in
+/-- **Round trip of the literal the generator writes** (`*b"\⏎…";` with the 80-column wrapping of the
+source): it denotes exactly the metadata bytes — in particular exactly `N = bs.length` of them, the
+length the static's type `[u8; N]` declares. -/
+theorem custom_section_literal_denotes (bs : List Nat) (hb : ∀ b ∈ bs, b < 256) (more : List Char) :
+    literalDenotes (sectionLiteral bs ++ '"' :: ';' :: more) bs = true := by
+  have h : decode false (sectionLiteral bs ++ '"' :: ';' :: more) = some (bs, ';' :: more) := by
+    simp only [sectionLiteral, emitBody, List.cons_append]
+    rw [decode_continuation, emitLoop_eq_emitW]
+    exact decode_emitW _ section_table_ok _ bs (wrapsOf_length _ _ bs 0) hb true _
+  simp [literalDenotes, h]
+
+open Witverif.Text.ByteLit Witverif.Text.ByteLitSpec in
+/-- the "no verbatim whitespace" clause of `tableOk` is necessary: a table that writes printable ASCII
+`b' '..=b'~'` verbatim loses the byte 0x20 when it lands right after a continuation -/
+theorem verbatim_space_after_continuation_is_lost :
+    let arms : List (Pat × Act) := [(.byte 92, .lit "\\\\".toList), (.byte 34, .lit "\\\"".toList),
+      (.range 32 126, .verbatim), (.byte 0, .lit "\\0".toList), (.any, .hex)]
+    tableOk arms = false ∧
+    decode false (emitW arms [false, true] [65, 32] ++ ['"']) = some ([65], []) := by decide +kernel
+
 /-! ## Non-vacuity -/
 
 example : toRustIdent "type".toList = "type_".toList ∧ toRustIdent "foo-bar".toList = "foo_bar".toList ∧
@@ -258,5 +300,11 @@ example :
     let q : Pkg := ⟨"wasi".toList, "http".toList, some ⟨0, 3, 0, [], []⟩⟩
     ∀ c ∈ rustModulePath [p, q] p "types".toList, c ∉ keywords2024 :=
   module_path_components_not_keywords_partial _ _ _ (by decide) (by decide) (by decide)
+
+open Witverif.Text.ByteLit Witverif.Text.ByteLitSpec in
+/-- the literal of a small byte list with every kind of arm, as the generator writes it -/
+example : sectionLiteral [0, 32, 65, 34, 92, 255, 10] = "\\\n\\0\\x20A\\\"\\\\\\xff\\x0a".toList ∧
+    literalDenotes (sectionLiteral [0, 32, 65, 34, 92, 255, 10] ++ "\";\n".toList) [0, 32, 65, 34, 92, 255, 10] = true := by
+  decide +kernel
 
 end Witverif.Props.C09
